@@ -53,7 +53,8 @@ def gen_line(rnd, ca, plat):
         return acetext.with_ws(rnd, toks), "valid"
     if r < 0.5:
         pre = rnd.choice(["", "10 ", "5   "])
-        return pre + "remark " + rnd.choice(["text", "= C-1, x", "statistics per-entry", "  padded  text "]), "valid"
+        return pre + "remark " + rnd.choice(["text", "= C-1, x", "statistics per-entry", "  padded  text ", "4711", "2024 0815",
+                                             "100", "rule 7", "7 rule", "0"]), "valid"
     if r < 0.62:
         return rnd.choice(["statistics per-entry", "description uplink acl", "ignore routing", "statistics ",
                            "  statistics per-entry", "description"]), "ignorable"
